@@ -4,6 +4,8 @@ import (
 	"crypto/x509"
 	"errors"
 	"fmt"
+	pb "github.com/google/go-tdx-guest/proto/tdx"
+	"google.golang.org/protobuf/proto"
 	"strings"
 	"testing"
 	"time"
@@ -328,6 +330,8 @@ func TestC12(t *testing.T) {
 		var hist []string
 		distinctWorlds := map[int]bool{}
 		toggles := 0
+		kept := make([]*pb.QuoteV4, nW)
+		keptOrig := make([][]byte, nW)
 		t.Repeat(map[string]func(*rapid.T){
 			"verify": func(t *rapid.T) {
 				i := rapid.IntRange(0, nW-1).Draw(t, "world")
@@ -379,6 +383,46 @@ func TestC12(t *testing.T) {
 						Detail: fmt.Sprintf("after %d steps: shared=%s fresh=%s; history: %s", len(hist), vs, vf, strings.Join(hist, " ; ")), Replay: map[string]any{"kind": "history", "history": hist}})
 				}
 			},
+			// a caller keeps ONE message object per quote and verifies it again and again; between two verifications it may
+			// overwrite bytes of the message IN PLACE (here: one character of the PCK leaf inside the certificate chain, or
+			// the original bytes again). The verdict is that of the message as it is now.
+			"verify-kept-message": func(t *rapid.T) {
+				i := rapid.IntRange(0, nW-1).Draw(t, "world")
+				if kept[i] == nil {
+					rq, err := gen.RefParse(worlds[i].Raw)
+					if err != nil {
+						t.Skip("world's quote does not parse")
+					}
+					kept[i] = rq.ToProto()
+					chain := kept[i].GetSignedData().GetCertificationData().GetQeReportCertificationData().GetPckCertificateChainData().GetPckCertChain()
+					keptOrig[i] = append([]byte{}, chain...)
+				}
+				chain := kept[i].GetSignedData().GetCertificationData().GetQeReportCertificationData().GetPckCertificateChainData().GetPckCertChain()
+				edit := rapid.SampledFrom([]string{"none", "none", "damage-leaf-in-place", "restore-in-place"}).Draw(t, "inPlaceEdit")
+				if len(chain) > 400 && len(chain) == len(keptOrig[i]) {
+					switch edit {
+					case "damage-leaf-in-place":
+						pos := 120 + rapid.IntRange(0, 200).Draw(t, "pos")
+						if c := chain[pos]; c != '\n' && c != '-' {
+							chain[pos] = map[bool]byte{true: 'B', false: 'A'}[c == 'A']
+						}
+					case "restore-in-place":
+						copy(chain, keptOrig[i])
+					}
+				}
+				fts := worlds[cur.times].Times
+				fresh := &verify.Options{GetCollateral: cur.gc, CheckRevocations: cur.cr, Getter: worlds[cur.getter].NewGetter(), TrustedRoots: pools[cur.pool], Now: &fts}
+				shared.GetCollateral, shared.CheckRevocations = cur.gc, cur.cr
+				gen.Eval()
+				vs := gen.Call(func() error { return verify.TdxQuote(kept[i], shared) })
+				vf := gen.Call(func() error { return verify.TdxQuote(proto.Clone(kept[i]), fresh) })
+				hist = append(hist, fmt.Sprintf("verify the kept message of world %d (%s) after in-place edit %q -> shared %s / fresh options and a copy of the message %s", i, faults[i].Name, edit, vs.Short(), vf.Short()))
+				distinctWorlds[i] = true
+				if !sameOutcome(vs, vf) {
+					gen.Fail(t, gen.Violation{Key: "history-dependent-verdict:kept-message", Oracle: "the verdict depends only on the quote (as it is now), the option settings and the fetched data",
+						Detail: fmt.Sprintf("after %d steps: shared options and the kept message = %s, fresh options and a copy of it = %s; history: %s", len(hist), vs, vf, strings.Join(hist, " ; ")), Replay: map[string]any{"kind": "history", "history": hist}})
+				}
+			},
 			"toggle-collateral": func(t *rapid.T) { cur.gc = !cur.gc; toggles++; hist = append(hist, "toggle gc") },
 			"toggle-revocation": func(t *rapid.T) { cur.cr = !cur.cr; toggles++; hist = append(hist, "toggle cr") },
 			"swap-getter": func(t *rapid.T) {
@@ -406,6 +450,9 @@ func TestC12(t *testing.T) {
 	})
 
 	<-done
+	gen.Direct(t, "embedded-root-and-process-history", func(t *testing.T) {
+		intelReRootedCheck(t, "the verdict depends only on the quote, the option settings and the fetched data, not on what the process verified before")
+	})
 }
 
 // realClockScenario covers the default time set (Options.Now == nil): a leaf that expires two
